@@ -29,7 +29,7 @@ fi
 VERIF_DIR=$ROOT/verif VERIF_SCALE=$SCALE timeout 900 $ROOT/target/debug/umverif $PROP --tier quick >$ROOT/run.log 2>&1
 rc=$?
 case $rc in
-  1) echo "MUTANT $(basename $PATCH) $PROP => caught ($(grep -m1 -o 'signature=[^ ]*' $ROOT/run.log))";;
+  1) echo "MUTANT $(basename $PATCH) $PROP => caught ($(grep '^  sub=' $ROOT/run.log | grep -m1 -o 'signature=[^ ]*'))";;
   0) echo "MUTANT $(basename $PATCH) $PROP => MISSED"; tail -2 $ROOT/run.log;;
   *) echo "MUTANT $(basename $PATCH) $PROP => inconclusive rc=$rc"; tail -3 $ROOT/run.log;;
 esac
